@@ -15,7 +15,7 @@ PROPS["C09"] = dict(
           "Oracle Eigen::SelfAdjointEigenSolver. non-trivial = a restart certainly happened (2*neigen + iterations > search space limit) or the "
           "lowest neigen+1 eigenvalues contain a gap < 1e-3 or a degeneracy (f2_diagdom: restart or >= 3 iterations)."
           " In 25 % of the generated cases the same solver object has completed an easy converging solve before (history: "
-          "status and results must not depend on it)."),
+          "status and results must not depend on it). Histories: 25 % of the cases run on a solver object that already solved another operator (9x9, or - 60 % - one of the same dimension whose small diagonal elements sit where this one has its large ones); options are set again before the solve under test."),
     assumptions=COMMON_ASSUME + [
         "solve() is called like BSE does (size_initial_guess left at its default 2*neigen, neigen <= n/4)",
         "an exception from solve() returns nothing and claims no status: counted as class 'throw:...' (a violation only in f2_diagdom, "
